@@ -422,7 +422,7 @@ def run_unit(unit, tier='quick'):
         for (kind, cond, site) in p.oblig:
             items.append((f"safe:{kind}", cond, 'safety'))
         for (name, g, kind) in items:
-            o = ob(name); o['instances'] += 1; o['kind'] = kind
+            o = ob(str(name)); o['instances'] += 1; o['kind'] = kind
             g = z3.simplify(g) if not z3.is_false(g) else g
             if z3.is_true(g):
                 o['proved'] += 1; o['by']['trivial'] = o['by'].get('trivial', 0) + 1
@@ -444,7 +444,7 @@ def run_unit(unit, tier='quick'):
             if r['verdict'] == 'proved':
                 o['proved'] += 1; o['by'][r['by']] = o['by'].get(r['by'], 0) + 1
                 if len(res['samples']) < 3 and kind != 'safety':
-                    res['samples'].append(dict(obligation=f"{unit.uid}::{name}", path=cover['taken'],
+                    res['samples'].append(dict(obligation=f"{unit.uid}::{str(name)}", path=cover['taken'],
                                                smt2=core.to_smt2(hyps, z3.Not(g))[:1500]))
             elif r['verdict'] == 'refuted':
                 o['refuted'] += 1
